@@ -356,7 +356,7 @@ META = {
              "over all 12 integer types with every arithmetic, bitwise, shift, comparison, logical (short-circuit), conditional, cast "
              "and unary-minus operator, any nesting depth, any number of parameters (Props/C01.lean: lower_correct, "
              "lower_correct_in, lower_correct_exact).  F2 - functions whose body is built from declarations of integer block-scope "
-             "objects with and without initialiser, assignment and compound assignment, ++/-- (not on _Bool objects), expression "
+             "objects with and without initialiser, assignment and compound assignment, ++/-- (also on _Bool objects), expression "
              "statements, compound statements, if, if-else, while, do-while, for (any clause missing, declaration in the first), "
              "break, continue and return anywhere (no code after a jump statement in the same block), over F1's expressions on "
              "parameters and locals (lower2_correct, lower2_correct_in, lower2_correct_exact).  Statement: whenever the C semantics "
@@ -370,8 +370,8 @@ META = {
              "are tied to THIS compiler on every run: for generated F1 and F2 functions (typed trees as expr.c/stmt.c/decl.c build "
              "them) the text cproc-qbe emits must be byte-identical to the model's, the C semantics must agree with gcc and clang on "
              "sample arguments, and the real IL executed under Spec/Qbe must return the C semantics' value.  Outside F1/F2 (floats, "
-             "pointers, aggregates, bit-fields, switch, goto, calls, non-scalar initialisers, VLAs, unreachable code after a jump, "
-             "++/-- on _Bool) nothing is proved: there the check is translation validation - every program of the typed generator "
+             "pointers, aggregates, bit-fields, switch, goto, calls, non-scalar initialisers, VLAs, unreachable code after a jump) "
+             "nothing is proved: there the check is translation validation - every program of the typed generator "
              "gen/cprog.py is compiled by the freshly built cproc-qbe, its real IL is executed under the formal IL semantics and the "
              "trace/exit status compared with gcc and clang (UBSan/ASan-clean, agreeing), for the char conventions of all three "
              "targets."),
